@@ -48,7 +48,9 @@ class Unit:
         self.functions = functions       # real functions under contract ("file: item")
         self.assumptions = assumptions or []
         self.cfgs = cfgs or [None]       # feature sets; None = default features
-        self.c16 = c16                   # untagged side conditions count for C16
+        self.c16 = c16
+        # properties to which untagged side conditions (overflow, index, unwrap, unreachable!) are attributed
+        self.implicit = [props[0]] + (["C16"] if (c16 and "C16" in props and props[0] != "C16") else [])
         self.dropped = dropped or []     # what the extraction drops / replaces
         self.bounded = bounded or []     # stated bounds (Kani units only)
         self.text = {}                   # cfg -> generated text
@@ -181,6 +183,10 @@ def run_verus(unit, cfg, text, scratch, rlimit=None, seed=None, extra=None):
             if found:
                 break
         ptext = norm_ws(" ".join(t.get("text", "") for t in (prim or {}).get("text", []))) if prim else ""
+        if not ptext and prim is not None:
+            ls = prim.get("line_start", 0)
+            if 0 < ls <= len(lines):
+                ptext = norm_ws(lines[ls - 1])
         if found:
             for (props, name, clause) in found[:1]:
                 if name == "canary":
@@ -192,11 +198,9 @@ def run_verus(unit, cfg, text, scratch, rlimit=None, seed=None, extra=None):
             # untagged: enclosing tagged region?  look upward for a `//@region` marker
             props, name = region_of(lines, (prim or {}).get("line_start", 0))
             if props is None:
-                props = ["C16"] if unit.c16 else list(unit.props)
+                props = list(unit.implicit)
                 name = "%s.%s@%s" % (unit.name, kind, re.sub(r"[^\w+\-*/<>=&|!\[\]().]", "_", ptext)[:70])
-                oid = "O-C16-" + name if unit.c16 else obligation_id(props, name)
-                if not unit.c16:
-                    props = list(unit.props)
+                oid = "O-side-" + name
             else:
                 oid = obligation_id(props, name)
             r.failed.append({"id": oid, "props": props, "kind": kind, "message": norm_ws(msg), "text": ptext,
